@@ -4,6 +4,7 @@ import (
 	"bytes"
 	"fmt"
 	"io"
+	"regexp"
 	"sort"
 	"strings"
 	"unicode"
@@ -774,6 +775,10 @@ func c06JsCheckGeneric(d []byte, rep *Report, bucket string) {
 				rep.Violate("c06-canonical:ident:"+string(t.data), fmt.Sprintf("%q lexed as IdentifierToken, Keywords has %v", t.data, kw), replay)
 			}
 		}
+		// numeric tokens are well-formed NumericLiterals (ECMA-262 12.9.3, with separators and BigInt suffix)
+		if js.IsNumeric(t.tt) && !c06NumericRe[t.tt].Match(t.data) {
+			rep.Violate("c06-numeric:"+hx(t.data), fmt.Sprintf("%v %q (from %q) is not a well-formed literal of that kind", t.tt, t.data, d), replay)
+		}
 		// comment kind
 		if t.tt == js.CommentLineTerminatorToken && !c06JsHasLT(t.data) {
 			rep.Violate("c06-comment-lt:"+hx(d), fmt.Sprintf("CommentLineTerminatorToken %q contains no line terminator", t.data), replay)
@@ -798,11 +803,99 @@ func c06JsCheckGeneric(d []byte, rep *Report, bucket string) {
 			}
 		}
 	}
+	c06JsCheckToEOF(d, rep, replay)
 	last := toks[len(toks)-1]
 	if err == io.EOF && pos != len(d) && last.data != nil {
 		rep.Violate("c06-tiling-eof:"+hx(d), fmt.Sprintf("EOF reported with %d of %d bytes in tokens (%q)", pos, len(d), d), replay)
 	}
 	rep.Eval(hx(d), len(toks) > 2, bucket)
+}
+
+var c06NumericRe = map[js.TokenType]*regexp.Regexp{
+	js.DecimalToken:     regexp.MustCompile(`^((0|[1-9](_?[0-9])*)\.([0-9](_?[0-9])*)?|\.[0-9](_?[0-9])*|(0|[1-9](_?[0-9])*))([eE][+-]?[0-9](_?[0-9])*)?$`),
+	js.IntegerToken:     regexp.MustCompile(`^(0|[1-9](_?[0-9])*)n?$`),
+	js.BinaryToken:      regexp.MustCompile(`^0[bB][01](_?[01])*n?$`),
+	js.OctalToken:       regexp.MustCompile(`^0[oO][0-7](_?[0-7])*n?$`),
+	js.HexadecimalToken: regexp.MustCompile(`^0[xX][0-9a-fA-F](_?[0-9a-fA-F])*n?$`),
+}
+
+// c06JsCheckToEOF keeps calling Next after errors: no panic, every slice lies inside the input at the
+// position the cursor reports, the cursor never passes the end, and io.EOF is reached within 2*len+3 calls.
+func c06JsCheckToEOF(d []byte, rep *Report, replay map[string]interface{}) {
+	in := parse.NewInputBytes(append(make([]byte, 0, len(d)+1), d...))
+	l := js.NewLexer(in)
+	done := false
+	p := catch(func() {
+		for i := 0; i < 2*len(d)+3; i++ {
+			_, data := l.Next()
+			off := in.Offset()
+			if off < 0 || off > len(d) {
+				rep.Violate("c06-overread:"+hx(d), fmt.Sprintf("%q: offset %d outside [0,%d] after call %d", d, off, len(d), i), replay)
+				return
+			}
+			if data != nil && (off-len(data) < 0 || !bytes.Equal(d[off-len(data):off], data)) {
+				rep.Violate("c06-overread:"+hx(d), fmt.Sprintf("%q: call %d returned %q, which is not the input before offset %d", d, i, data, off), replay)
+				return
+			}
+			if data == nil && l.Err() == io.EOF {
+				done = true
+				return
+			}
+		}
+	})
+	if p != nil {
+		rep.Violate("c06-panic:"+hx(d), fmt.Sprintf("Next panics on %q after an error: %v", d, p), replay)
+	} else if !done && len(rep.Violations) < 40 {
+		rep.Violate("c06-noeof:"+hx(d), fmt.Sprintf("%q: io.EOF not reported within 2*len+3 calls", d), replay)
+	}
+}
+
+// c06GreedyOps tokenises a string made of punctuators, the identifier "a", spaces and "?.5 " by maximal
+// munch over the punctuator list, written from ECMA-262 12.8 (with "?." [lookahead not a digit]).
+func c06GreedyOps(s string) []c06JsTok {
+	var out []c06JsTok
+	for i := 0; i < len(s); {
+		c := s[i]
+		switch {
+		case c == ' ':
+			j := i
+			for j < len(s) && s[j] == ' ' {
+				j++
+			}
+			out = append(out, c06JsTok{js.WhitespaceToken, s[i:j]})
+			i = j
+		case c == 'a':
+			j := i
+			for j < len(s) && s[j] == 'a' {
+				j++
+			}
+			out = append(out, c06JsTok{js.IdentifierToken, s[i:j]})
+			i = j
+		case c == '.' && i+1 < len(s) && s[i+1] >= '0' && s[i+1] <= '9':
+			j := i + 1
+			for j < len(s) && s[j] >= '0' && s[j] <= '9' {
+				j++
+			}
+			out = append(out, c06JsTok{js.DecimalToken, s[i:j]})
+			i = j
+		default:
+			best := c06JsTok{}
+			for _, p := range c06JsPunct {
+				if strings.HasPrefix(s[i:], p.text) && len(p.text) > len(best.text) {
+					if p.tt == js.OptChainToken && i+2 < len(s) && s[i+2] >= '0' && s[i+2] <= '9' {
+						continue
+					}
+					best = p
+				}
+			}
+			if best.text == "" {
+				return nil
+			}
+			out = append(out, best)
+			i += len(best.text)
+		}
+	}
+	return out
 }
 
 func c06JsTTName(tt js.TokenType) string {
@@ -912,6 +1005,56 @@ func c06Oracle(r *Rng, tier string, rep *Report) {
 			rep.Violate("c06-regexp:missing:"+hx([]byte(pre)), fmt.Sprintf("%q: no '/' or '/=' token at offset %d", d, len(pre)), replay)
 		}
 		rep.Eval(hx(d), true, "regexp")
+	}
+	// 5. operator runs: maximal munch over the punctuator list for every neighbourhood
+	var opPieces []string
+	for _, p := range c06JsPunct {
+		if !strings.Contains(p.text, "/") {
+			opPieces = append(opPieces, p.text)
+		}
+	}
+	opPieces = append(opPieces, "?.5 ", "?.0 ", "a", " ", "?", ".", ">", "=", "-", "<", "!")
+	no := 6000
+	if tier == "thorough" {
+		no = 300000
+	}
+	for it := 0; it < no; it++ {
+		var sb strings.Builder
+		sb.WriteString("a")
+		np := 1 + r.Intn(5)
+		for i := 0; i < np; i++ {
+			sb.WriteString(r.PickStr(opPieces))
+		}
+		src := sb.String()
+		if strings.Contains(src, "<!--") {
+			continue
+		}
+		want := c06GreedyOps(src)
+		d := []byte(src)
+		got, err, p := c06JsLexAll(d, false)
+		bad := ""
+		if want == nil {
+			bad = "oracle cannot tokenise"
+		} else if p != nil {
+			bad = fmt.Sprintf("panic %v", p)
+		} else if len(got) != len(want)+1 || err != io.EOF {
+			bad = fmt.Sprintf("%d tokens (err %v), expected %d", len(got)-1, err, len(want))
+		}
+		k := 0
+		for ; bad == "" && k < len(want); k++ {
+			if got[k].tt != want[k].tt || string(got[k].data) != want[k].text {
+				bad = fmt.Sprintf("token %d is %v %q, expected %v %q", k, got[k].tt, got[k].data, want[k].tt, want[k].text)
+				break
+			}
+		}
+		if bad != "" {
+			key := "c06-munch:" + src
+			if k < len(want) {
+				key = "c06-munch:" + want[k].text + ":" + src[strings.Index(src, want[k].text):]
+			}
+			rep.Violate(trunc(key, 60), fmt.Sprintf("operator run %q: %s", src, bad), map[string]interface{}{"input": src})
+		}
+		rep.Eval(src, len(want) >= 3, "munch")
 	}
 	// 4. comment kind, directly
 	for it := 0; it < 2000; it++ {
